@@ -117,10 +117,11 @@ theorem shr_step (c : Cfg) (s : St) (e : Ev) : Shr s (step c s e) := by
   | nodeDone n => exact Shr.ofEq rfl rfl
   | nodeFailed n => exact Shr.refl s
   | nodeReset n => exact Shr.refl s
+  | restart => exact Shr.ofEq rfl rfl
   | removeEmpty => exact Shr.ofFrame (foldRemove_frame (fun a => (c.namesOf a).isEmpty) s.dom s)
   | cacheMap => exact Shr.ofEq (cacheMap_disk c s) (cacheMap_removed c s)
   | early upto =>
-    show Shr s (if s.final then s else cleanTmp c s (min upto 2))
+    show Shr s (if s.final then s else cleanTmp c s (min upto 3))
     split
     · exact Shr.refl s
     · exact shr_cleanTmp c s _
@@ -187,6 +188,7 @@ theorem exact_step_nonvol (c : Cfg) (s : St) (hv : c.volatile = false) (hs : c.s
   | nodeDone n => exact x.ofEq rfl rfl
   | nodeFailed n => exact x
   | nodeReset n => exact x
+  | restart => exact x.ofEq rfl rfl
   | removeEmpty =>
     have f := foldRemove_frame (fun a => (c.namesOf a).isEmpty) s.dom s
     exact x.ofEq f.removed f.report
@@ -197,7 +199,7 @@ theorem exact_step_nonvol (c : Cfg) (s : St) (hv : c.volatile = false) (hs : c.s
     exact x.ofEq (cacheMap_removed c s) (show (dropUnused (cacheEntries c s) (dropNoFiles c s)).report = s.report by
       rw [f2.report, f1.report])
   | early upto =>
-    show Exact (if s.final then s else cleanTmp c s (min upto 2))
+    show Exact (if s.final then s else cleanTmp c s (min upto 3))
     split
     · exact x
     · exact exact_cleanTmp c s _ x
